@@ -14,6 +14,7 @@ import contextlib
 import pickle
 import random
 import threading
+import _thread
 from collections import deque
 
 import numpy as np
@@ -25,9 +26,16 @@ class _Abort(BaseException):
     pass
 
 
+def _sem():
+    """binary semaphore, initially taken (raw lock: an order of magnitude cheaper than threading.Semaphore)"""
+    lk = _thread.allocate_lock()
+    lk.acquire()
+    return lk
+
+
 class Sched:
     def __init__(self, capacity=None):
-        self.ctl = threading.Semaphore(0)
+        self.ctl = _sem()
         self.T = {}
         self.order = []
         self.abort = False
@@ -38,7 +46,7 @@ class Sched:
 
     # ---- threads
     def spawn(self, name, fn):
-        t = dict(name=name, go=threading.Semaphore(0), finished=False, enabled=(lambda: True), exc=None, n=0,
+        t = dict(name=name, go=_sem(), finished=False, enabled=(lambda: True), exc=None, n=0,
                  h=hashlib.sha1(), started=False, idle=0, what="start")
         self.T[name] = t
         self.order.append(name)
@@ -55,18 +63,20 @@ class Sched:
             except BaseException as e:  # noqa
                 t["exc"] = e
             t["finished"] = True
-            self.ctl.release()
+            if not self.abort:
+                self.ctl.release()
 
         th = threading.Thread(target=body, daemon=True)
         t["th"] = th
         th.start()
 
-    def point(self, what, enabled=None, ready=None):
+    def point(self, what, enabled=None, ready=None, info=()):
         """called by the running thread before an IPC operation; returns when the controller schedules it again"""
         t = self.T[self.cur]
         t["enabled"] = enabled or (lambda: True)
         t["ready"] = ready or t["enabled"]
         t["what"] = what
+        t["info"] = info
         self.ctl.release()
         t["go"].acquire()
         if self.abort:
@@ -85,6 +95,12 @@ class Sched:
 
     def enabled(self):
         return [n for n in self.order if not self.T[n]["finished"] and self.T[n]["enabled"]()]
+
+    def local_id(self, name):
+        """everything the future of one thread depends on besides its inputs: its IPC history and its pending operation"""
+        t = self.T[name]
+        pend = None if t["finished"] else ((t["what"], t.get("info", ())) if t["started"] else ("start", ()))
+        return (name, t["n"], t["h"].hexdigest()[:16], t["finished"], t["started"], t["idle"], t["exc"] is not None, pend)
 
     def key(self):
         return tuple((n, t["n"], t["h"].hexdigest()[:16], t["finished"], t["started"], t["idle"], t["exc"] is not None)
@@ -143,11 +159,16 @@ class World:
         self.private = {}
         self.S.on_switch = self._swap_module_state
 
+        self.conns = []
+        self.effects = []
+
         class FConn:
             def __init__(self):
                 self.inbox = deque()
                 self.peer = None
                 self.closed = False
+                self.cid = len(w.conns)
+                w.conns.append(self)
 
             def __deepcopy__(self, memo):
                 return self
@@ -155,24 +176,26 @@ class World:
             def send(self, obj):
                 S = w.S
                 cap = S.capacity
-                S.point("send", (lambda: True) if cap is None else (lambda: len(self.peer.inbox) < cap))
+                S.point("send", (lambda: True) if cap is None else (lambda: len(self.peer.inbox) < cap), info=(self.peer.cid,))
                 b = pickle.dumps(obj)
                 S.note("send", b)
                 self.peer.inbox.append(b)
+                w.effects.append(("send", self.peer.cid, b))
 
             def recv(self):
                 S = w.S
-                S.point("recv", lambda: bool(self.inbox) or self.peer.owner_finished())
+                S.point("recv", lambda: bool(self.inbox) or self.peer.owner_finished(), info=(self.cid, getattr(self.peer, "owner", None)))
                 if not self.inbox:
                     S.note("recv-eof")
                     raise EOFError("peer process ended")
                 b = self.inbox.popleft()
                 S.note("recv", b)
+                w.effects.append(("recv", self.cid))
                 return pickle.loads(b)
 
             def poll(self, timeout=0.0):
                 S = w.S
-                S.point("poll", ready=lambda: bool(self.inbox) or S.event_flag)
+                S.point("poll", ready=lambda: bool(self.inbox) or S.event_flag, info=(self.cid,))
                 r = bool(self.inbox)
                 if r or S.event_flag:
                     S.note("poll", bytes([r, S.event_flag]))
@@ -198,6 +221,7 @@ class World:
                 w.S.point("event.set")
                 w.S.note("event.set")
                 w.S.event_flag = True
+                w.effects.append(("set",))
 
         class FProcess:
             def __init__(self, target=None, args=(), kwargs=None, **_):
@@ -217,9 +241,10 @@ class World:
                 self._started = True
                 w.fork_state(self.name)
                 w.S.spawn(self.name, lambda: self.target(*args, **self.kwargs))
+                w.effects.append(("spawn", self.name))
 
             def join(self, timeout=None):
-                w.S.point("join", lambda: w.S.T[self.name]["finished"])
+                w.S.point("join", lambda: w.S.T[self.name]["finished"], info=(self.name,))
                 w.S.note("join")
 
             def is_alive(self):
@@ -242,7 +267,8 @@ class World:
                 return bool(c.inbox) or c.peer.owner_finished()
 
             S.point("wait", enabled=(lambda: True) if timeout is not None else (lambda: any(readable(c) for c in objs)),
-                    ready=lambda: any(readable(c) for c in objs))
+                    ready=lambda: any(readable(c) for c in objs),
+                    info=(tuple((c.cid, getattr(c.peer, "owner", None)) for c in objs), timeout is None))
             ready = [c for c in objs if readable(c)]
             if ready:
                 S.note("wait", bytes([i for i, c in enumerate(objs) if c in ready]))
@@ -337,56 +363,78 @@ def patched_parallel(world, seed=1):
             PAR.wait = saved_wait
 
 
-def explore_schedules(parent_fn, capacity=None, max_states=200000, seed=1):
+def explore_schedules(parent_fn, capacity=None, max_states=400000, seed=1):
     """parent_fn(PAR, out) runs in the 'parent' thread; it records results in the dict ``out``.
-    Returns dict(states, transitions, finals={outcome: schedule}, deadlocks=[...], worker_errors=[...], max_depth)."""
+    Stateful depth-first search with replay: one execution replays a schedule prefix and then keeps going along the first
+    enabled thread, registering every new global state on the way and queueing the untaken alternatives; it stops at a
+    state that was seen before.  Every transition of every reachable state is taken exactly once.
+    Returns dict(states, transitions, finals={outcome: schedule}, deadlocks, worker_errors, stuck, max_depth, runs)."""
     seen = {}
-    q = deque([[]])
+    stack = [[]]
     trans = 0
     finals = {}
     deadlocks = []
     errors = []
     maxd = 0
     runs = 0
-    stuck = []
     succ = {}
-    while q:
-        p = q.popleft()
+    unfinished_keys = {}
+    while stack:
+        prefix = stack.pop()
         world = World(capacity)
         out = {}
+        S = world.S
         with patched_parallel(world, seed) as PAR:
-            world.S.spawn("parent", lambda: parent_fn(PAR, out))
+            S.spawn("parent", lambda: parent_fn(PAR, out))
             with contextlib.redirect_stdout(io.StringIO()):
-                res = world.S.run(p, "parent")
+                S._switch_to("parent")
+                i = 0
+                path = []
+                prev_key = None
+                while True:
+                    en = S.enabled()
+                    if i < len(prefix):
+                        k = prefix[i]
+                        if k >= len(en):
+                            S._cleanup()
+                            raise HarnessError(f"schedule replay divergence at {i}: choice {k} of {len(en)} enabled")
+                        if i == len(prefix) - 1:
+                            prev_key = S.key()
+                        i += 1
+                        path.append(k)
+                        S._switch_to(en[k])
+                        continue
+                    key = S.key()
+                    if prev_key is not None:
+                        succ.setdefault(prev_key, set()).add(key)
+                        trans += 1
+                    if key in seen:
+                        break
+                    seen[key] = list(path)
+                    maxd = max(maxd, len(path))
+                    excs = {n: t["exc"] for n, t in S.T.items() if t["exc"] is not None}
+                    if excs and not any(e[0] == "exc" and e[1] == tuple(sorted(excs)) for e in errors):
+                        errors.append(("exc", tuple(sorted(excs)), list(path), {n: f"{type(e).__name__}: {e}" for n, e in excs.items()}))
+                    if not en:
+                        if all(t["finished"] for t in S.T.values()):
+                            finals.setdefault(out.get("outcome"), list(path))
+                        else:
+                            deadlocks.append((list(path), [(n, S.T[n]["what"]) for n in S.order if not S.T[n]["finished"]]))
+                        break
+                    unfinished_keys[key] = list(path)
+                    for k in range(len(en) - 1, 0, -1):
+                        stack.append(path + [k])
+                    prev_key = key
+                    path.append(0)
+                    S._switch_to(en[0])
+                S._cleanup()
         runs += 1
-        key = world.S.key()
-        if p:
-            succ.setdefault(tuple(p[:-1]), set()).add(key)
-        excs = {n: t["exc"] for n, t in world.S.T.items() if t["exc"] is not None}
-        if key in seen:
-            continue
-        seen[key] = p
-        maxd = max(maxd, len(p))
-        if excs:
-            errors.append((p, {n: f"{type(e).__name__}: {e}" for n, e in excs.items()}))
-        if res[0] == "done":
-            finals.setdefault(out.get("outcome"), p)
-            continue
-        if res[0] == "deadlock":
-            deadlocks.append((p, res[1]))
-            continue
-        for k in range(len(res[1])):
-            q.append(p + [k])
-            trans += 1
         if len(seen) > max_states:
             raise HarnessError(f"state cap {max_states} exceeded")
     # states all of whose successors are themselves (only idle polling possible) and that are not final: stuck
-    for key, p in seen.items():
-        s = succ.get(tuple(p))
-        if s is not None and s == {key}:
-            stuck.append(p)
-    return dict(states=len(seen), transitions=trans, finals=finals, deadlocks=deadlocks, worker_errors=errors,
-                max_depth=maxd, runs=runs, stuck=stuck)
+    stuck = [p for key, p in unfinished_keys.items() if succ.get(key) == {key}]
+    return dict(states=len(seen), transitions=trans, finals=finals, deadlocks=deadlocks,
+                worker_errors=[(p, e) for _, _, p, e in errors], max_depth=maxd, runs=runs, stuck=stuck)
 
 
 def run_serial_schedule(parent_fn, capacity=None, seed=1, policy="parent-first"):
@@ -416,3 +464,177 @@ def run_serial_schedule(parent_fn, capacity=None, seed=1, policy="parent-first")
             excs = {k: t["exc"] for k, t in S.T.items() if t["exc"] is not None}
             S._cleanup()
     return out, done, excs
+
+
+# --------------------------------------------------------------------------- learned local-step search
+class _Sym:
+    """symbolic global state: per-thread local ids, channel contents (message ids), event flag"""
+
+    __slots__ = ("locals", "chans", "flag", "path")
+
+    def __init__(self, locals_, chans, flag, path):
+        self.locals, self.chans, self.flag, self.path = locals_, chans, flag, path
+
+    def key(self):
+        return (tuple(sorted(self.locals.items())), tuple(sorted(self.chans.items())), self.flag)
+
+    def plain_key(self):
+        # the key of the plain search (channels are implied by the histories)
+        return (tuple(v[:7] for _, v in sorted(self.locals.items())), self.flag)
+
+
+def _sym_enabled(G, name, capacity):
+    L = G.locals[name]
+    if L[3]:
+        return False
+    what, info = L[7]
+    if what == "send":
+        return capacity is None or len(G.chans.get(info[0], ())) < capacity
+    if what == "recv":
+        return bool(G.chans.get(info[0], ())) or (info[1] is not None and G.locals[info[1]][3])
+    if what == "join":
+        return G.locals[info[0]][3]
+    if what == "wait":
+        conns, blocking = info
+        if not blocking:
+            return True
+        return any(G.chans.get(c, ()) or (o is not None and G.locals[o][3]) for c, o in conns)
+    return True  # start, poll, event.set
+
+
+def _sym_input(G, name):
+    L = G.locals[name]
+    what, info = L[7]
+    if what == "recv":
+        q = G.chans.get(info[0], ())
+        return ("recv", q[0] if q else "EOF")
+    if what == "poll":
+        return ("poll", bool(G.chans.get(info[0], ())))
+    if what == "wait":
+        return ("wait", tuple(bool(G.chans.get(c, ())) or (o is not None and G.locals[o][3]) for c, o in info[0]))
+    if what == "send":
+        return ("send",)
+    return (what,)
+
+
+def explore_schedules_learned(parent_fn, capacity=None, seed=1, max_states=2000000, audit_every=97):
+    """All interleavings by exploring a *learned* model of the real code: the effect of one thread's step from its local
+    state (IPC history + pending operation) on a given input (message at the head of its pipe, poll result, event flag)
+    is observed ONCE by a real execution and memoised; global states are then composed symbolically.  Every real
+    execution first checks that the real world reached by the symbolic state's schedule carries exactly the local states
+    and channel contents the model predicts (conformance), and every final state is executed for real to obtain the
+    returned chains.  Sound under the assumption the plain search already makes: a process is a deterministic function
+    of what it has received (plus the shutdown flag, which is part of every memo key)."""
+    msg_ids = {}
+
+    def mid(b):
+        return msg_ids.setdefault(b, len(msg_ids))
+
+    stats = dict(real_runs=0, conformance_checks=0)
+
+    def real_run(path, step=None, want_outcome=False, G=None):
+        """execute path (thread names) for real; optionally one more step by `step`; returns observations"""
+        world = World(capacity)
+        out = {}
+        S = world.S
+        with patched_parallel(world, seed) as PAR:
+            S.spawn("parent", lambda: parent_fn(PAR, out))
+            with contextlib.redirect_stdout(io.StringIO()):
+                for nm in path:
+                    if nm not in S.T or nm not in S.enabled():
+                        S._cleanup()
+                        raise HarnessError(f"learned model diverges from the real code: {nm} not enabled after {len(path)} steps")
+                    S._switch_to(nm)
+                stats["real_runs"] += 1
+                res = {}
+                if G is not None:
+                    # conformance: the real world must be in the state the model predicts
+                    real_locals = {n: S.local_id(n) for n in S.T}
+                    real_chans = {c.cid: tuple(mid(b) for b in c.inbox) for c in world.conns if c.inbox}
+                    if real_locals != G.locals or real_chans != {k: v for k, v in G.chans.items() if v} or S.event_flag != G.flag:
+                        S._cleanup()
+                        raise HarnessError("learned model diverges from the real code: predicted state differs from the state reached by the same schedule")
+                    stats["conformance_checks"] += 1
+                if step is not None:
+                    del world.effects[:]
+                    before = set(S.T)
+                    S._switch_to(step)
+                    res["local"] = S.local_id(step)
+                    res["effects"] = [(e[0], e[1], mid(e[2])) if e[0] == "send" else e for e in world.effects]
+                    res["spawned"] = {n: S.local_id(n) for n in S.T if n not in before}
+                    t = S.T[step]
+                    res["exc"] = None if t["exc"] is None else f"{type(t['exc']).__name__}: {t['exc']}"
+                    if isinstance(t["exc"], HarnessError):
+                        S._cleanup()
+                        raise t["exc"]
+                if want_outcome:
+                    res["finished"] = all(t["finished"] for t in S.T.values())
+                    res["outcome"] = out.get("outcome")
+                S._cleanup()
+        return res
+
+    memo = {}
+    G0 = _Sym({"parent": ("parent", 0, hashlib.sha1().hexdigest()[:16], False, False, 0, False, ("start", ()))}, {}, False, [])
+    seen = {G0.key(): G0}
+    queue = deque([G0])
+    trans = 0
+    finals = {}
+    deadlocks = []
+    errors = {}
+    stuck = []
+    maxd = 0
+    while queue:
+        G = queue.popleft()
+        names = [n for n in sorted(G.locals, key=lambda n: (n != "parent", n)) if _sym_enabled(G, n, capacity)]
+        if not names:
+            if all(L[3] for L in G.locals.values()):
+                r = real_run(G.path, want_outcome=True, G=G)
+                if not r["finished"]:
+                    raise HarnessError("learned model: final state is not final in the real execution")
+                finals.setdefault(r["outcome"], list(G.path))
+                if len(finals) > 1:
+                    break  # two different outcomes for one script: established, no need to enumerate the rest
+            else:
+                deadlocks.append((list(G.path), [(n, L[7][0]) for n, L in G.locals.items() if not L[3]]))
+                if len(deadlocks) >= 3:
+                    break
+            continue
+        succ_keys = set()
+        for nm in names:
+            mk = (G.locals[nm], _sym_input(G, nm), G.flag)
+            if mk not in memo:
+                memo[mk] = real_run(G.path, step=nm, G=G)
+            m = memo[mk]
+            locals_ = dict(G.locals)
+            locals_[nm] = m["local"]
+            locals_.update(m["spawned"])
+            chans = dict(G.chans)
+            flag = G.flag
+            for e in m["effects"]:
+                if e[0] == "send":
+                    chans[e[1]] = chans.get(e[1], ()) + (e[2],)
+                elif e[0] == "recv":
+                    chans[e[1]] = chans[e[1]][1:]
+                    if not chans[e[1]]:
+                        del chans[e[1]]
+                elif e[0] == "set":
+                    flag = True
+            if m["exc"] is not None:
+                errors.setdefault(m["exc"], (list(G.path) + [nm], {nm: m["exc"]}))
+            H = _Sym(locals_, chans, flag, G.path + [nm])
+            k = H.key()
+            trans += 1
+            succ_keys.add(k)
+            if k not in seen:
+                seen[k] = H
+                maxd = max(maxd, len(H.path))
+                queue.append(H)
+                if audit_every and len(seen) % audit_every == 0:
+                    real_run(H.path, G=H)  # audit: a composed state must be what the real code reaches by the same schedule
+                if len(seen) > max_states:
+                    raise HarnessError(f"state cap {max_states} exceeded")
+        if succ_keys == {G.key()}:
+            stuck.append(list(G.path))
+    return dict(states=len(seen), transitions=trans, finals=finals, deadlocks=deadlocks, worker_errors=list(errors.values()),
+                max_depth=maxd, runs=stats["real_runs"], stuck=stuck, learned_steps=len(memo), conformance_checks=stats["conformance_checks"],
+                plain_keys=len({G.plain_key() for G in seen.values()}))
